@@ -270,48 +270,138 @@ def gen():
     emit(defs, 'gen_walk_leftover_error', walk_leftover)
 
     # ---- SynchedStream.__iter__
+    # Three shapes are recognised (anything else -> unit):
+    #   0  `for name, data in grouped:` with the two guards inline at the top of the body (the code before fix-4)
+    #   1  fix-3's `while next_item is not None:` loop (never committed)
+    #   2  fix-4: `for (name, data), following in _with_following(grouped):`, guards in `self._check_name(name, seen)`
+    #      at the top of the body, and the same call on the following group's key-mapped name before `yield data`
     NEUTRAL_SYNC = {'logger.debug(f\'handling data for {name}\')', 'sys.stdout.flush()', 'sys.stderr.flush()',
                     'name = self._key_func(name)', 'used_names.append(name)'}
+    CHECK_CALL = 'self._check_name(name, seen_contig_names)'
+    FOLLOWING_CALL = 'self._check_name(self._key_func(following[0]), seen_contig_names)'
 
     def sync_loop():
         f = find_function(ms, 'SynchedStream.__iter__')
-        loops = [n for n in f.body if isinstance(n, ast.For) and src_of(n.iter) == 'grouped']
-        return f, only(loops, 'for name, data in grouped')
+        loops = [n for n in f.body if isinstance(n, ast.For)
+                 and (src_of(n.target), src_of(n.iter)) in ((('(name, data)'), 'grouped'), ('name, data', 'grouped'),
+                                                          ('((name, data), following)', '_with_following(grouped)'),
+                                                          ('(name, data), following', '_with_following(grouped)'))]
+        loop = only(loops, 'for … in grouped / _with_following(grouped)')
+        g = only([n for n in f.body if isinstance(n, ast.Assign) and src_of(n.targets[0]) == 'grouped'], 'grouped =')
+        if src_of(g.value) != 'groupby(self._stream, self._grouping_attribute)':
+            raise Unsupported('grouped is not groupby(self._stream, self._grouping_attribute)')
+        return f, loop, ('following' in src_of(loop.target))
+
+    def guard_statements():
+        """the statements that hold the two guards on `name`, and what precedes the skipping loop"""
+        f, loop, fol = sync_loop()
+        if not fol:
+            return loop.body, loop.body
+        # the body must reach the call of _check_name through neutral statements only, and the key function must
+        # have been applied to the name before
+        texts = [src_of(st) for st in loop.body]
+        if CHECK_CALL not in texts:
+            raise Unsupported('the loop body does not call %s' % CHECK_CALL)
+        i = texts.index(CHECK_CALL)
+        if any(t not in NEUTRAL_SYNC for t in texts[:i]) or 'name = self._key_func(name)' not in texts[:i]:
+            raise Unsupported('statements before the guard call are not neutral / the key function is not applied first')
+        if not isinstance(loop.body[i + 1], ast.While):
+            raise Unsupported('the guard call is not directly followed by the skipping loop')
+        cn = find_function(ms, 'SynchedStream._check_name')
+        if [a.arg for a in cn.args.args] != ['self', 'name', 'seen_contig_names']:
+            raise Unsupported('_check_name does not take (self, name, seen_contig_names)')
+        return cn.body, loop.body
 
     def sync_check():
-        f, loop = sync_loop()
+        guards, body = guard_statements()
         rule = BoolRule({'name in seen_contig_names': 'in_seen', 'name in self._contig_order': 'in_order'})
-        txt, k = decision_list(rule, loop.body, NEUTRAL_SYNC)
+        txt, k = decision_list(rule, guards, NEUTRAL_SYNC)
         if k != 2:
             raise Unsupported('expected the two guards (already seen / not in contig order), found %d' % k)
+        if guards is not body and k != len(guards):
+            raise Unsupported('_check_name has statements that are not guard clauses')
         return rule.definition('gen_sync_check', ['in_seen', 'in_order'], txt, 'Z')
     emit(defs, 'gen_sync_check', sync_check)
 
     def sync_skip():
-        f, loop = sync_loop()
+        f, loop, fol = sync_loop()
         w = only([n for n in loop.body if isinstance(n, ast.While)], 'while in the group loop')
         rule = BoolRule({'cur_contig_idx < len(self._contig_order)': 'idx_in_range',
                          'name == self._contig_order[cur_contig_idx]': 'is_current'})
         return rule.definition('gen_sync_keeps_skipping', ['idx_in_range', 'is_current'], rule.cond(w.test))
     emit(defs, 'gen_sync_keeps_skipping', sync_skip)
 
-    def sync_checks_first():
+    def sync_shape():
         f = find_function(ms, 'SynchedStream.__iter__')
-        loops = [n for n in f.body if isinstance(n, ast.For) and src_of(n.iter) == 'grouped']
-        if len(loops) == 1:
-            # guards at the top of the loop body: the following group is looked at only after the current one was yielded
-            ys = [n for n in ast.walk(loops[0]) if isinstance(n, ast.Yield) and src_of(n.value) == 'data']
-            only(ys, '`yield data` in the group loop')
-            return 'Definition gen_sync_checks_before_yield : bool := false.\n'
         wl = [n for n in f.body if isinstance(n, ast.While) and src_of(n.test) == 'next_item is not None']
-        if len(loops) == 0 and len(wl) == 1:
+        if len(wl) == 1 and not [n for n in f.body if isinstance(n, ast.For) and 'grouped' in src_of(n.iter)]:
             body = wl[0].body
             idx = [i for i, st in enumerate(body) if src_of(st) == 'next_item = self._checked_item(next(grouped, None), seen_contig_names)']
             yi = [i for i, st in enumerate(body) if is_yield_stmt(st) and src_of(st.value.value) == 'data']
             if len(idx) == 1 and len(yi) == 1 and idx[0] < yi[0]:
-                return 'Definition gen_sync_checks_before_yield : bool := true.\n'
-        raise Unsupported('SynchedStream.__iter__ has neither the for-loop nor the look-ahead shape')
+                return 1
+            raise Unsupported('while-loop shape without the look-ahead before `yield data`')
+        f, loop, fol = sync_loop()
+        ys = [n for n in ast.walk(loop) if isinstance(n, ast.Yield) and src_of(n.value) == 'data']
+        only(ys, '`yield data` in the group loop')
+        br = only([n for n in loop.body if isinstance(n, ast.If) and src_of(n.test) == 'name == self._contig_order[cur_contig_idx]'],
+                  'if name == self._contig_order[cur_contig_idx]')
+        texts = [src_of(st) for st in br.body]
+        if not fol:
+            if texts != ['yield data', 'seen_contig_names.add(self._contig_order[cur_contig_idx])', 'cur_contig_idx += 1']:
+                raise Unsupported('matching branch of the plain for-loop is not yield / add / advance: %s' % texts)
+            return 0
+        if len(br.body) != 4 or texts[:2] != ['seen_contig_names.add(self._contig_order[cur_contig_idx])', 'cur_contig_idx += 1'] \
+                or texts[3] != 'yield data':
+            raise Unsupported('matching branch is not add / advance / check following / yield data: %s' % texts)
+        return 2
+
+    def sync_shape_def():
+        return 'Definition gen_sync_shape : Z := %d.\n' % sync_shape()
+    emit(defs, 'gen_sync_shape', sync_shape_def)
+
+    def sync_checks_first():
+        return 'Definition gen_sync_checks_before_yield : bool := %s.\n' % ('true' if sync_shape() in (1, 2) else 'false')
     emit(defs, 'gen_sync_checks_before_yield', sync_checks_first)
+
+    def sync_following_check():
+        """what happens between advancing the cursor and `yield data`: (has_following, in_seen, in_order) -> error code / 0"""
+        shape = sync_shape()
+        rule = BoolRule({'name in seen_contig_names': 'in_seen', 'name in self._contig_order': 'in_order',
+                         'following is None': 'no_following'})
+        if shape != 2:
+            return rule.definition('gen_sync_following_check', ['has_following', 'in_seen', 'in_order'], '0', 'Z')
+        guards, body = guard_statements()
+        f, loop, fol = sync_loop()
+        br = only([n for n in loop.body if isinstance(n, ast.If) and src_of(n.test) == 'name == self._contig_order[cur_contig_idx]'], 'matching branch')
+        g = br.body[2]
+        if not (isinstance(g, ast.If) and not g.orelse and [src_of(x) for x in g.body] == [FOLLOWING_CALL]):
+            raise Unsupported('the statement before `yield data` is not `if …: %s`' % FOLLOWING_CALL)
+        cond = rule.cond(g.test)            # in terms of no_following
+        txt, k = decision_list(rule, guards, NEUTRAL_SYNC)
+        if k != 2 or k != len(guards):
+            raise Unsupported('_check_name is not exactly the two guards')
+        cond = cond.replace('no_following', '(negb has_following)')
+        rule.used = [u for u in rule.used if u != 'no_following']
+        return rule.definition('gen_sync_following_check', ['has_following', 'in_seen', 'in_order'],
+                               'if %s then (%s) else 0' % (cond, txt), 'Z')
+    emit(defs, 'gen_sync_following_check', sync_following_check)
+
+    def with_following():
+        """_with_following(iterable): every item once, in order, paired with the item after it (None after the last)"""
+        if sync_shape() != 2:
+            return 'Definition gen_with_following_pairs : bool := true.\n'      # not used by this shape
+        f = find_function(ms, '_with_following')
+        body = [st for st in f.body if not (isinstance(st, ast.Expr) and isinstance(st.value, ast.Constant))]   # docstring
+        if [a.arg for a in f.args.args] != ['iterable'] or len(body) != 3:
+            raise Unsupported('_with_following is not (iterable) with three statements')
+        w = body[2]
+        if not ([src_of(body[0]), src_of(body[1])] == ['iterator = iter(iterable)', 'item = next(iterator, None)']
+                and isinstance(w, ast.While) and src_of(w.test) == 'item is not None' and not w.orelse
+                and [src_of(x) for x in w.body] == ['following = next(iterator, None)', 'yield (item, following)', 'item = following']):
+            raise Unsupported('_with_following is not the one-item look-ahead loop')
+        return 'Definition gen_with_following_pairs : bool := true.\n'
+    emit(defs, 'gen_with_following_pairs', with_following)
 
     # ---- left_join
     def lj_default():
